@@ -163,6 +163,69 @@ Proof.
   destruct (is_rejected is_ip deployed_suffixes sni); [reflexivity|apply run_dial_deployed].
 Qed.
 
+(** ** hostConn: every return before the join *)
+
+Lemma decide_dial_total cfg sni : crashes (decide_dial cfg sni) = false.
+Proof.
+  unfold decide_dial. destruct (has_lookup cfg); [|reflexivity]. cbn [negb].
+  destruct (lk_err (lookup cfg sni)); [reflexivity|].
+  destruct (lk_dest (lookup cfg sni)) as [d|]; [|reflexivity].
+  destruct (d_home d); [destruct (has_dial_home cfg); reflexivity|].
+  destruct (nonemptyb (d_forward d)); [reflexivity|].
+  destruct (registry cfg (d_name d)); reflexivity.
+Qed.
+
+(** The closed form of the deployed hostConn: the front connection is always
+    closed on return; the dialer is called only for a sniffed name that is
+    not rejected; the connection is joined - bytes flow - only if the route
+    selects a destination and the dial succeeds; a dialled connection is
+    closed again. *)
+Definition front_spec (sufs : list string) (cfg : server_cfg) (sniff : option bytes) (dial_ok : bool)
+  : front_out :=
+  match sniff with
+  | None => mkOut true None false false
+  | Some name =>
+      if is_rejected is_ip sufs name then mkOut true None false false
+      else let rt := decide_dial cfg name in
+           mkOut true (Some rt) (served rt && dial_ok) (served rt && dial_ok)
+  end.
+
+Lemma run_front_deployed cfg sniff dial_ok :
+  run_front is_ip deployed_rj_steps deployed_dial_steps cfg sniff dial_ok deployed_host_steps hs0
+  = FOut (front_spec deployed_suffixes cfg sniff dial_ok).
+Proof.
+  unfold deployed_host_steps, front_spec. cbn [run_front hs0 hs_sniffed hs_err hs_defer_front hs_dial
+    hs_remote hs_closer hs_defer_remote].
+  destruct sniff as [name|]; cbn [is_some negb]; [|reflexivity].
+  rewrite run_rj_deployed. destruct (is_rejected is_ip deployed_suffixes name); [reflexivity|].
+  rewrite run_dial_deployed, decide_dial_total.
+  cbn [run_front hs_sniffed hs_err hs_defer_front hs_dial hs_remote hs_closer hs_defer_remote].
+  destruct (served (decide_dial cfg name) && dial_ok) eqn:E; cbn [negb]; unfold ret_out;
+    cbn [hs_defer_front hs_dial hs_remote hs_defer_remote orb andb]; reflexivity.
+Qed.
+
+Lemma front_spec_props sufs cfg sniff dial_ok :
+  let o := front_spec sufs cfg sniff dial_ok in
+  fo_front_closed o = true /\
+  (fo_joined o = true <->
+     exists name, sniff = Some name /\ served (decide is_ip sufs cfg name) = true /\ dial_ok = true) /\
+  ((sniff = None \/ exists name, sniff = Some name /\ is_rejected is_ip sufs name = true) ->
+     fo_dial o = None /\ fo_joined o = false) /\
+  fo_remote_closed o = fo_joined o.
+Proof.
+  unfold front_spec, decide. destruct sniff as [name|].
+  - destruct (is_rejected is_ip sufs name) eqn:R; cbn [fo_front_closed fo_joined fo_dial fo_remote_closed].
+    + repeat split; try discriminate.
+      intros (n & [= <-] & H & _). rewrite R in H. discriminate.
+    + split; [reflexivity|]. split; [|split; [|reflexivity]].
+      * split.
+        -- intros H. apply andb_true_iff in H. destruct H as [H1 H2]. exists name. rewrite R. auto.
+        -- intros (n & [= <-] & H & ->). rewrite R in H. rewrite H. reflexivity.
+      * intros [H|(n & [= <-] & H)]; [discriminate|]. rewrite R in H. discriminate.
+  - cbn [fo_front_closed fo_joined fo_dial fo_remote_closed]. repeat split; try discriminate.
+    intros (n & H & _). discriminate.
+Qed.
+
 (** Generic over emitted lists: if the lookup is followed by a guard that
     fires whenever err != nil and whose body returns a non-nil error, then a
     name for which the lookup returns an error - with or without a *Dest - is
